@@ -61,7 +61,16 @@ impl World {
                     | None => "nowhere/missing.zy".to_string(),
                     | Some(t) => {
                         let name = self.name(*t);
-                        match rng.below(6) {
+                        match rng.below(9) {
+                            // absolute spellings that are not canonical: through `..`, through a
+                            // directory link, through a file link
+                            | 6 => dir.join("sub").join("..").join(&name).display().to_string(),
+                            | 7 => dir.join("dirlink").join(&name).display().to_string(),
+                            | 8 => {
+                                let link = format!("la{i}_{k}_{name}");
+                                let _ = std::os::unix::fs::symlink(&name, dir.join(&link));
+                                dir.join(&link).display().to_string()
+                            }
                             | 0 => format!("./{name}"),
                             | 1 => format!("sub/../{name}"),
                             | 2 => dir.join(&name).display().to_string(),
